@@ -1554,26 +1554,29 @@ impl Kanata {
                         }
                         CustomAction::Repeat => {
                             let keycode = self.last_pressed_key;
-                            let osc: OsCode = keycode.into();
-                            log::debug!("repeating a keypress {osc:?}");
-                            let mut do_caps_word = false;
-                            if !cur_keys.contains(&KeyCode::LShift) {
-                                if let Some(ref mut cw) = self.caps_word {
-                                    cur_keys.push(keycode);
-                                    let prev_len = cur_keys.len();
-                                    cw.maybe_add_lsft(cur_keys);
-                                    if cur_keys.len() > prev_len {
-                                        do_caps_word = true;
-                                        press_key(&mut self.kbd_out, OsCode::KEY_LEFTSHIFT)?;
+                            // `No` means that no key has been pressed yet: there is nothing to repeat.
+                            if keycode != KeyCode::No {
+                                let osc: OsCode = keycode.into();
+                                log::debug!("repeating a keypress {osc:?}");
+                                let mut do_caps_word = false;
+                                if !cur_keys.contains(&KeyCode::LShift) {
+                                    if let Some(ref mut cw) = self.caps_word {
+                                        cur_keys.push(keycode);
+                                        let prev_len = cur_keys.len();
+                                        cw.maybe_add_lsft(cur_keys);
+                                        if cur_keys.len() > prev_len {
+                                            do_caps_word = true;
+                                            press_key(&mut self.kbd_out, OsCode::KEY_LEFTSHIFT)?;
+                                        }
                                     }
                                 }
-                            }
-                            // Release key in case the most recently pressed key is still pressed.
-                            release_key(&mut self.kbd_out, osc)?;
-                            press_key(&mut self.kbd_out, osc)?;
-                            release_key(&mut self.kbd_out, osc)?;
-                            if do_caps_word {
-                                self.kbd_out.release_key(OsCode::KEY_LEFTSHIFT)?;
+                                // Release key in case the most recently pressed key is still pressed.
+                                release_key(&mut self.kbd_out, osc)?;
+                                press_key(&mut self.kbd_out, osc)?;
+                                release_key(&mut self.kbd_out, osc)?;
+                                if do_caps_word {
+                                    self.kbd_out.release_key(OsCode::KEY_LEFTSHIFT)?;
+                                }
                             }
                         }
                         CustomAction::DynamicMacroRecord(macro_id) => {
